@@ -3,13 +3,13 @@ From OSS Require Export theories.Base theories.IPClass theories.IpInfo.
 Open Scope N_scope.
 
 (* addr kind: 0 nil, 1 unsplittable, 2 host-not-IP, 3 IP (16-byte value as ParseIP yields; 4 = 4-byte for FromIP)
-   db mode: 0 disabled, 1 hit (country "US"), 2 miss (empty country), 3 error, 4 error with a partial answer (country "CN") *)
+   db mode: 0 disabled, 1 hit (country "US"), 2 miss (empty country), 3 error, 4 error with a partial answer (country "CN"), 5 no country but an ASN *)
 Record case := { c_kind : N; c_addr : N; c_db : N; c_label : bytes; c_consulted : bool }.
 
 Definition mk_addr (k a : N) : addr :=
   match k with 0 => ANil | 1 => AUnsplittable | 2 => AHostNotIP | 3 => AIP (V16 a) | _ => AIP (V4 a) end.
 Definition mk_db (m : N) : ip -> db_answer :=
-  match m with 1 => fun _ => DbOk [85;83] | 2 => fun _ => DbOk [] | 4 => fun _ => DbErr [67;78] | _ => fun _ => DbErr [] end.
+  match m with 1 => fun _ => DbOk [85;83] | 2 | 5 => fun _ => DbOk [] | 4 => fun _ => DbErr [67;78] | _ => fun _ => DbErr [] end.
 
 Definition check_case (c : case) : bool :=
   let r := info_from_addr (negb (c_db c =? 0)) (mk_db (c_db c)) (mk_addr (c_kind c) (c_addr c)) in
